@@ -5,7 +5,7 @@
      BucketBatchSampler.__iter__            -> [iter_loop], [bucket_iter]
      torch.utils.data.BatchSampler          -> [batch_sampler], [batch_sampler_len]  (torch primitive,
                                                documented semantics)
-     _get_bucket_batch_sampler_params       -> [bucket_params]   (with its IndexError / ZeroDivisionError)
+     _get_bucket_batch_sampler_params       -> [bucket_params]
      _get_batch_sampler_len                 -> [sampler_len], [loader_len]
      Spect/Lang/ContextWindow DataLoader    -> [loader_batches], [spect_loader], [lang_loader], [cw_loader]
      spect_/lang_/context_window_seq_to_batch, pad_sequence -> [spect_collate], [lang_collate], [cw_collate]
@@ -157,18 +157,24 @@ Definition length_bounds (lens : list nat) (nb : nat) : result (list nat) :=
       end
   end.
 
-(* returns (idx2bucket as a table indexed by idx, bucket2size as a table indexed by bucket) *)
+(* returns (idx2bucket as a table indexed by idx, bucket2size as a table indexed by bucket).
+   An empty data set gives two empty maps; a dynamic size is
+   max(m // max(len_bounds[j], 1), batch_size), so zero-length utterances do not divide by zero.
+   ([Err] can only come from num_buckets = 0, which the parameter bounds exclude.) *)
 Definition bucket_params (lens : list nat) (nb bs : nat) (dyn : bool)
   : result (list nat * list nat) :=
-  match length_bounds lens nb with
-  | Err e => Err e
-  | Ok lb =>
-      let i2b := map (class_of lb) lens in
-      if dyn then
-        let m := last lb 0 * bs in
-        if existsb (Nat.eqb 0) lb then Err ZeroDivisionError
-        else Ok (i2b, map (fun b => m / b) lb)
-      else Ok (i2b, map (fun _ => bs) lb)
+  match lens with
+  | [] => Ok ([], [])
+  | _ =>
+      match length_bounds lens nb with
+      | Err e => Err e
+      | Ok lb =>
+          let i2b := map (class_of lb) lens in
+          if dyn then
+            let m := last lb 0 * bs in
+            Ok (i2b, map (fun b => Nat.max (m / Nat.max b 1) bs) lb)
+          else Ok (i2b, map (fun _ => bs) lb)
+      end
   end.
 
 (* ====================================================================================== *)
@@ -359,30 +365,16 @@ Definition spect_loader (ds : list utt) (p : lparams) (batch_first sort : bool) 
   | Ok bs => Ok (map (fun b => spect_collate batch_first sort F W (map (fun i => nth i ds dflt_utt) b)) bs)
   end.
 
-(* what _get_bucket_batch_sampler_params reads as "the length" of a LangDataSet item:
-   x[0].size(0).  With suppress_uttids the item is the bare ref tensor, so x[0] is its first row:
-   IndexError when there is none or when it is a scalar (W = 1), its width otherwise. *)
-Definition lang_item_len (suppress : bool) (W : nat) (ref : list row) : option nat :=
-  if suppress then
-    match ref with
-    | [] => None
-    | r :: _ => if Nat.eqb W 1 then None else Some (length r)
-    end
-  else Some (length ref).
+(* the length _get_bucket_batch_sampler_params reads from a LangDataSet item is the reference
+   length, whether the item is the bare tensor (suppress_uttids) or the pair (ref, uttid) *)
+Definition lang_loader_batches (ds : list (list row * nat)) (p : lparams) (order : list nat)
+  : result (list (list nat)) :=
+  loader_batches (map (fun x => length (fst x)) ds) p order.
 
-Definition lang_loader_batches (suppress : bool) (W : nat) (ds : list (list row * nat))
-  (p : lparams) (order : list nat) : result (list (list nat)) :=
-  if Nat.ltb 1 (p_nb p) then
-    match all_some (map (fun x => lang_item_len suppress W (fst x)) ds) with
-    | None => Err IndexError
-    | Some lens => loader_batches lens p order
-    end
-  else loader_batches (map (fun x => length (fst x)) ds) p order.
-
-Definition lang_loader (suppress : bool) (W : nat) (ds : list (list row * nat)) (p : lparams)
+Definition lang_loader (W : nat) (ds : list (list row * nat)) (p : lparams)
   (batch_first sort : bool) (order : list nat)
   : result (list (list (list row) * list nat * list nat)) :=
-  match lang_loader_batches suppress W ds p order with
+  match lang_loader_batches ds p order with
   | Err e => Err e
   | Ok bs => Ok (map (fun b => lang_collate batch_first sort W (map (fun i => nth i ds ([], 0)) b)) bs)
   end.
@@ -477,10 +469,10 @@ Definition check_lang_collate (bf sort has_ids : bool) (W : nat) (sq : list (lis
   (impl : list (list row) * list nat * list nat) : bool :=
   lbatch_eqb has_ids (lang_collate bf sort W sq) impl.
 
-Definition check_lang_loader (suppress : bool) (W : nat) (ds : list (list row * nat)) (p : lparams)
+Definition check_lang_loader (has_ids : bool) (W : nat) (ds : list (list row * nat)) (p : lparams)
   (bf sort : bool) (order : list nat)
   (impl : result (list (list (list row) * list nat * list nat))) : bool :=
-  res_eqb (list_eqb (lbatch_eqb (negb suppress))) (lang_loader suppress W ds p bf sort order) impl.
+  res_eqb (list_eqb (lbatch_eqb has_ids)) (lang_loader W ds p bf sort order) impl.
 
 Definition cwbatch_eqb (has_ids : bool)
   (a b : list (list row) * option (list Z) * list nat * list nat) : bool :=
